@@ -580,31 +580,35 @@ def _key_transforms(expr, argnames, mapping=None):
             return all(ident_elt(e, targets) for e in elt.elts)
         return False
 
-    def rec(e):
+    def rec(e, canon=False):
         if isinstance(e, ast.Name):
             if mapping is not None and e.id == mapping:
                 bad.append("%s without .items(): the names only" % e.id)
             return
         if isinstance(e, ast.BinOp) and isinstance(e.op, ast.Add):
-            rec(e.left)
-            rec(e.right)
+            rec(e.left, canon)
+            rec(e.right, canon)
             return
         if isinstance(e, (ast.Tuple, ast.List)):
             for x in e.elts:
-                rec(x.value if isinstance(x, ast.Starred) else x)
+                rec(x.value if isinstance(x, ast.Starred) else x, canon)
             return
         if isinstance(e, ast.Call) and isinstance(e.func, ast.Name) and \
                 e.func.id in GROUP and len(e.args) == 1 and not e.keywords:
-            rec(e.args[0])
+            rec(e.args[0], canon or e.func.id in ("sorted", "frozenset"))
             return
         if isinstance(e, ast.Call) and isinstance(e.func, ast.Attribute) and \
                 e.func.attr == "items" and isinstance(e.func.value, ast.Name) \
                 and e.func.value.id in argnames and not e.args:
+            if not canon:
+                # load(a=1, b=2) and load(b=2, a=1) are one call
+                bad.append("%s in the order the keywords were written "
+                           "(not sorted)" % src(e))
             return
         if isinstance(e, (ast.GeneratorExp, ast.ListComp)) and \
                 len(e.generators) == 1 and not e.generators[0].ifs and \
                 ident_elt(e.elt, [e.generators[0].target]):
-            rec(e.generators[0].iter)
+            rec(e.generators[0].iter, canon)
             return
         bad.append(src(e)[:60])
     rec(expr)
